@@ -1,4 +1,5 @@
 import GgrsModel.Driver.Codec
+import GgrsModel.Driver.Accept
 
 open Ggrs.Driver
 
@@ -8,11 +9,27 @@ partial def loopLines (h : IO.FS.Stream) (out : IO.FS.Stream) (f : String → St
   out.putStrLn (f line)
   loopLines h out f
 
+partial def foldLines {σ} (h : IO.FS.Stream) (st : σ) (n : Nat) (f : σ → Nat → String → σ) : IO σ := do
+  let line ← h.getLine
+  if line.isEmpty then return st
+  foldLines h (f st n line) (n + 1) f
+
+/-- `accept`: reads a trace on stdin, prints one MISMATCH line per diverged session and a summary. -/
+def runAccept : IO UInt32 := do
+  let stdin ← IO.getStdin
+  let st ← foldLines stdin ({} : AcceptState) 1 acceptLine
+  let st := finishBlock st
+  for m in st.mismatches do
+    IO.println m.text
+  IO.println s!"SUMMARY scenarios={st.scenarios} sessions={st.sessions} blocks={st.blocks} accepted={st.accepted} diverged={st.diverged.length}"
+  return (if st.mismatches.isEmpty then 0 else 1)
+
 def main (args : List String) : IO UInt32 := do
   let stdin ← IO.getStdin
   let stdout ← IO.getStdout
   match args with
   | ["codec"] => loopLines stdin stdout codecLine; return 0
+  | ["accept"] => runAccept
   | _ =>
-    IO.eprintln "usage: ggrs_model codec"
+    IO.eprintln "usage: ggrs_model codec | accept"
     return 2
